@@ -854,6 +854,14 @@ pub fn run_c10(o: &Opts) -> Report {
             (format!("{l}S{sp}{}{sp}P{r}", st.copula_equivalence_retrospective), format!("{l}P{sp}{}{sp}S{r}", st.copula_equivalence_predictive)),
             (format!("{}0007", e.atom.prefix_interval), format!("{}7", e.atom.prefix_interval)),
         ];
+        // the placeholder as an operand of the derived copulas (its name is empty: the copula follows the prefix directly)
+        let ph = e.atom.prefix_placeholder;
+        let mut eqs = eqs;
+        eqs.push((format!("{l}{ph}{sp}{}{sp}P{r}", st.copula_instance), format!("{l}{xl}{ph}{xr}{sp}{}{sp}P{r}", st.copula_inheritance)));
+        eqs.push((format!("{l}{ph}{sp}{}{sp}P{r}", st.copula_property), format!("{l}{ph}{sp}{}{sp}{il}P{ir}{r}", st.copula_inheritance)));
+        eqs.push((format!("{l}{ph}{sp}{}{sp}P{r}", st.copula_instance_property), format!("{l}{xl}{ph}{xr}{sp}{}{sp}{il}P{ir}{r}", st.copula_inheritance)));
+        eqs.push((format!("{l}{ph}{sp}{}{sp}P{r}", st.copula_equivalence_retrospective), format!("{l}P{sp}{}{sp}{ph}{r}", st.copula_equivalence_predictive)));
+        eqs.push((format!("{l}S{sp}{}{sp}{ph}{r}", st.copula_instance), format!("{l}{xl}S{xr}{sp}{}{sp}{ph}{r}", st.copula_inheritance)));
         let eqs: Vec<(String, String)> = eqs.iter().cloned().chain(eqs.iter().map(|(a, b)| (a.replace(sp, ""), b.replace(sp, "")))).collect();
         for (a, b) in eqs {
             let ra = cx.parse_case(&fm, &a);
